@@ -101,6 +101,10 @@ func genCase(rng *rand.Rand) *caseDesc {
 		c.T0 = day + uint64(rng.Intn(80000))*1000 + uint64(rng.Intn(1000))
 	}
 	resNames := []string{"a", "bb", "GET:/x/y", "res with space", "ünï", "a"}
+	if rng.Intn(6) == 0 {
+		// a very long (URL-style) resource name: lines longer than any reasonable read buffer
+		resNames = append(resNames, "GET:/"+strings.Repeat("segment/", 1100+rng.Intn(200)))
+	}
 	n := 8 + rng.Intn(40)
 	for i := 0; i < n; i++ {
 		w := wr{}
@@ -600,6 +604,30 @@ func runCase(caseIdx int, c *caseDesc, rng *rand.Rand) {
 			return
 		}
 		run.Count("crash_restarts", 1)
+	}
+	// ---- plain restart on the (possibly full) original directory: a new writer with the same limits starts its own
+	// file at once; the number of files must respect the maximum from the first moment on
+	{
+		e3 := config.NewDefaultConfig()
+		e3.Sentinel.App.Name = app
+		e3.Sentinel.Log.Dir = dir
+		config.ResetGlobalConfig(e3)
+		clk.SetMs((lastSec + 30) * 1000)
+		os.RemoveAll(cdir)
+		w3, werr := metric.NewDefaultMetricLogWriterOfApp(c.MaxSize, c.MaxFiles, app)
+		if werr != nil {
+			fail("writer-create-error", "restart on the log directory: "+werr.Error())
+			return
+		}
+		nf := len(dataFiles(dir, baseName))
+		if cl, ok := w3.(interface{ Close() error }); ok {
+			cl.Close()
+		}
+		if uint32(nf) > c.MaxFiles {
+			fail("file-count-exceeds-max:after-restart", fmt.Sprintf("a writer restarted on a directory holding %d metric log files: %d files right after it was created, configured maximum %d", len(files), nf, c.MaxFiles))
+			return
+		}
+		run.Count("plain_restarts", 1)
 	}
 	run.Distinct(vk.Hash(c.MaxSize, c.MaxFiles, len(files), len(exp.retained), idx0(idx), caseNo))
 }
